@@ -40,11 +40,7 @@ func (r *ReferenceStorage) CheckAndSetReference(ref, old *plumbing.Reference) er
 		return r.SetReference(ref)
 	}
 
-	tmp, err := r.temporal.Reference(old.Name())
-	if err == plumbing.ErrReferenceNotFound {
-		tmp, err = r.ReferenceStorer.Reference(old.Name())
-	}
-
+	tmp, err := r.Reference(old.Name())
 	if err != nil {
 		return err
 	}
@@ -77,13 +73,38 @@ func (r ReferenceStorage) IterReferences() (storer.ReferenceIter, error) {
 		return nil, err
 	}
 
+	// References removed or overwritten in the transaction shadow the ones
+	// in the base storage.
+	shadowed := make(map[plumbing.ReferenceName]struct{}, len(r.deleted))
+	for name := range r.deleted {
+		shadowed[name] = struct{}{}
+	}
+
+	pending, err := r.temporal.IterReferences()
+	if err != nil {
+		baseIter.Close()
+		return nil, err
+	}
+
+	if err := pending.ForEach(func(ref *plumbing.Reference) error {
+		shadowed[ref.Name()] = struct{}{}
+		return nil
+	}); err != nil {
+		baseIter.Close()
+		return nil, err
+	}
+
 	temporalIter, err := r.temporal.IterReferences()
 	if err != nil {
+		baseIter.Close()
 		return nil, err
 	}
 
 	return storer.NewMultiReferenceIter([]storer.ReferenceIter{
-		baseIter,
+		storer.NewReferenceFilteredIter(func(ref *plumbing.Reference) bool {
+			_, ok := shadowed[ref.Name()]
+			return !ok
+		}, baseIter),
 		temporalIter,
 	}), nil
 }
